@@ -362,8 +362,19 @@ func (ip *FileIP) WriteAuditLogToFile() {
 	auditInfoJSON, jsonErr := json.MarshalIndent(auditInfo, "", "    ")
 	CheckWithMsg(jsonErr, "Could not marshall JSON")
 	ip.createDirs("")
-	writeErr := ioutil.WriteFile(ip.AuditFilePath(), auditInfoJSON, 0644)
+	// Write to a temporary file beside the audit file, and move that into
+	// place: an audit file that exists is then always complete, also when the
+	// workflow is killed while an existing audit file is being rewritten (as
+	// MapToTags does). A truncated audit file would make every later run fail
+	// when it tries to load it.
+	auditPath := ip.AuditFilePath()
+	tmpFile, tmpErr := ioutil.TempFile(filepath.Dir(auditPath), "."+filepath.Base(ip.Path())+".*.audit.json")
+	CheckWithMsg(tmpErr, "Could not create temporary audit file for: "+ip.Path())
+	_, writeErr := tmpFile.Write(auditInfoJSON)
 	CheckWithMsg(writeErr, "Could not write audit file: "+ip.Path())
+	CheckWithMsg(tmpFile.Close(), "Could not write audit file: "+ip.Path())
+	CheckWithMsg(os.Chmod(tmpFile.Name(), 0644), "Could not set permissions of audit file: "+ip.Path())
+	CheckWithMsg(os.Rename(tmpFile.Name(), auditPath), "Could not move audit file into place: "+ip.Path())
 	verifPoint("audit.file_written", ip.path, 0)
 }
 
